@@ -169,6 +169,7 @@ void fam_closure(Ctx &c, bool corpus)
     if (first[bi + 1] <= c.args.resume) continue;
     for (long long k = 0; k < n; k++) {
       long long idx = first[bi] + k;
+      if (k > 0 && c.oracle == "C03") break; // C03 uses the unmutated bases only
       if (!c.take(idx)) continue;
       if (deadline_hit(c, idx, total, tick)) return;
       Bytes       m;
